@@ -1038,7 +1038,45 @@ func ruleG9(r *Run) {
 			}
 			return true
 		})
-		r.Check(addArg != nil && addArg == loopBound, "Broadcast waits for exactly n goroutines", fd.Pos(), "wg.Add(n) with n goroutines", "wg.Add's count is not the number of goroutines started: Broadcast returns before every server was invoked, or never")
+		// the same count: one variable (wg.Add(n); for i := 0; i < n; i++), or the length of the
+		// collection the loop ranges over / counts up to (wg.Add(len(urls)); for i := range urls)
+		sameCount := addArg != nil && addArg == loopBound
+		if !sameCount {
+			bdefs := localDefs(info, fd.Body)
+			var addColl, loopColl types.Object
+			ast.Inspect(fd.Body, func(n ast.Node) bool {
+				switch x := n.(type) {
+				case *ast.CallExpr:
+					if methodName(x) == "Add" && len(x.Args) == 1 {
+						if t := info.TypeOf(x.Fun.(*ast.SelectorExpr).X); t != nil && isSyncType(t, "WaitGroup") {
+							addColl = rootOfLen(info, bdefs, x.Args[0], 0)
+						}
+					}
+				case *ast.RangeStmt:
+					hasGo := false
+					ast.Inspect(x.Body, func(m ast.Node) bool {
+						if _, ok := m.(*ast.GoStmt); ok {
+							hasGo = true
+						}
+						return true
+					})
+					if hasGo {
+						loopColl = rootObj(info, bdefs, x.X, 0)
+					}
+				case *ast.ForStmt:
+					if _, nv, ok := countedLoop(info, x); ok {
+						if d := bdefs[nv]; d != nil {
+							loopColl = rootOfLen(info, bdefs, d, 0)
+						}
+					} else if be, ok := x.Cond.(*ast.BinaryExpr); ok && be.Op == token.LSS {
+						loopColl = rootOfLen(info, bdefs, be.Y, 0)
+					}
+				}
+				return true
+			})
+			sameCount = addColl != nil && addColl == loopColl
+		}
+		r.Check(sameCount, "Broadcast waits for exactly n goroutines", fd.Pos(), "wg.Add(n) with n goroutines", "wg.Add's count is not the number of goroutines started: Broadcast returns before every server was invoked, or never")
 		r.Check(deferDone, "Broadcast goroutines signal by defer", fd.Pos(), "defer ... wg.Done()", "wg.Done is not deferred in the fan-out goroutine: a panicking call leaves Broadcast waiting for ever")
 	}
 	ffd, fpkg := p.DeclOf("rpc/plugins/cluster", "Forking")
@@ -1147,7 +1185,7 @@ func ruleG9(r *Run) {
 // G10 rotating index (C16 failover rotation, C18 round robin)
 
 func init() {
-	register("G10", "a rotating index obtained with atomic.Add is only returned under `i < n`, every other return is the constant 0 (the index is always in range), and the overflow path resets the shared counter to 0 so that rotation continues", 2, ruleG10)
+	register("G10", "a rotating index obtained with atomic.Add is only returned under `i < n`, every other return is the constant 0 (the index is always in range), and the overflow path resets the shared counter to 0 so that rotation continues", 1, ruleG10)
 }
 
 func ruleG10(r *Run) {
@@ -1388,7 +1426,7 @@ func init() {
 func ruleG12(r *Run) {
 	p := r.P
 	for _, tr := range []string{"rpc/socket", "rpc/udp", "rpc/websocket"} {
-		fds, pkg := p.dispatchers(tr)
+		fds, pkg := p.directDispatchers(tr)
 		if len(fds) == 0 {
 			r.Undec("per-request context "+tr, 0, "no function dispatches requests (calls Handler.run / Handler.task)")
 			continue
@@ -1470,9 +1508,149 @@ func ruleG12(r *Run) {
 	}
 }
 
-// dispatchers: the functions of a transport package that hand a request to Handler.run /
-// Handler.task (the receive loop, or the per-frame helper split off from it).
+// dispatchSet: for a transport package, the dispatch targets (Service.Handle, Handler.run,
+// Handler.task), the forwarders (functions that merely pass their own []byte parameter on to a
+// target or another forwarder - a dispatch tail split off from the receive loop) and the entries
+// (functions that hand bytes which are NOT their own parameter to a target or forwarder: the
+// receive loop, or the per-frame helper split off from it).
+type dispatchSet struct {
+	pkg     *packages.Package
+	targets map[*types.Func]bool // targets and forwarders
+	entries []*ast.FuncDecl
+}
+
+func isByteSlice(t types.Type) bool {
+	if t == nil {
+		return false
+	}
+	sl, ok := t.Underlying().(*types.Slice)
+	if !ok {
+		return false
+	}
+	b, ok := sl.Elem().Underlying().(*types.Basic)
+	return ok && b.Kind() == types.Uint8
+}
+
+func (p *Prog) dispatchSetOf(tr string) *dispatchSet {
+	pkg := p.Pkg(tr)
+	if pkg == nil {
+		return nil
+	}
+	info := pkg.TypesInfo
+	ds := &dispatchSet{pkg: pkg, targets: map[*types.Func]bool{}}
+	isBaseTarget := func(f *types.Func) bool {
+		if f == nil || !p.InRepo(f) {
+			return false
+		}
+		name := p.FuncName(f)
+		return name == "rpc/core.Service.Handle" || strings.HasSuffix(name, ".Handler.run") || strings.HasSuffix(name, ".Handler.task")
+	}
+	var decls []*ast.FuncDecl
+	for _, file := range pkg.Syntax {
+		for _, d := range file.Decls {
+			if fd, ok := d.(*ast.FuncDecl); ok && fd.Body != nil {
+				decls = append(decls, fd)
+			}
+		}
+	}
+	isTarget := func(f *types.Func) bool { return f != nil && (isBaseTarget(f) || ds.targets[f]) }
+	bytesArg := func(call *ast.CallExpr) ast.Expr {
+		for i := len(call.Args) - 1; i >= 0; i-- {
+			if isByteSlice(info.TypeOf(call.Args[i])) {
+				return call.Args[i]
+			}
+		}
+		return nil
+	}
+	for changed := true; changed; {
+		changed = false
+		for _, fd := range decls {
+			fobj, _ := info.Defs[fd.Name].(*types.Func)
+			if fobj == nil || isTarget(fobj) {
+				continue
+			}
+			params := map[types.Object]bool{}
+			for _, pv := range paramsOf(info, fd.Type) {
+				if pv != nil {
+					params[pv] = true
+				}
+			}
+			forwards, other := false, false
+			ast.Inspect(fd.Body, func(n ast.Node) bool {
+				call, ok := n.(*ast.CallExpr)
+				if !ok || !isTarget(Callee(info, call)) {
+					return true
+				}
+				if a := bytesArg(call); a != nil && params[identObj(info, a)] {
+					forwards = true
+				} else {
+					other = true
+				}
+				return true
+			})
+			if forwards && !other {
+				ds.targets[fobj] = true
+				changed = true
+			}
+		}
+	}
+	// a forwarder is called by a function of the package; one that is only handed out as a value
+	// (the mock handler registered as a callback) receives bytes from outside: it is an entry
+	called := map[*types.Func]bool{}
+	for _, fd := range decls {
+		ast.Inspect(fd.Body, func(n ast.Node) bool {
+			if call, ok := n.(*ast.CallExpr); ok {
+				if f := Callee(info, call); f != nil {
+					called[f] = true
+				}
+			}
+			return true
+		})
+	}
+	for f := range ds.targets {
+		if !called[f] {
+			delete(ds.targets, f)
+		}
+	}
+	for _, fd := range decls {
+		fobj, _ := info.Defs[fd.Name].(*types.Func)
+		if fobj == nil || isTarget(fobj) {
+			continue
+		}
+		has := false
+		ast.Inspect(fd.Body, func(n ast.Node) bool {
+			if call, ok := n.(*ast.CallExpr); ok && isTarget(Callee(info, call)) {
+				has = true
+			}
+			return true
+		})
+		if has {
+			ds.entries = append(ds.entries, fd)
+		}
+	}
+	for _, fd := range decls {
+		if fobj, _ := info.Defs[fd.Name].(*types.Func); fobj != nil && isBaseTarget(fobj) {
+			ds.targets[fobj] = true
+		}
+	}
+	if f := p.LookupFunc("rpc/core", "Service.Handle"); f != nil {
+		ds.targets[f] = true
+	}
+	return ds
+}
+
+// dispatchers: the entry functions of a transport package (see dispatchSet).
 func (p *Prog) dispatchers(tr string) ([]*ast.FuncDecl, *packages.Package) {
+	ds := p.dispatchSetOf(tr)
+	if ds == nil {
+		return nil, nil
+	}
+	return ds.entries, ds.pkg
+}
+
+// directDispatchers: the functions of a transport package that hand a request to Handler.run /
+// Handler.task (the receive loop, or the per-frame helper split off from it).
+func (p *Prog) directDispatchers(tr string) ([]*ast.FuncDecl, *packages.Package) {
 	pkg := p.Pkg(tr)
 	if pkg == nil {
 		return nil, nil
@@ -1547,7 +1725,11 @@ func ruleG7(r *Run) {
 			r.Undec("conn.Transport "+tr, 0, "not found")
 		}
 		// (2) Handler.receive: the index from parseHeader is the one dispatched
-		fdsD, _ := p.dispatchers(tr)
+		dsG7 := p.dispatchSetOf(tr)
+		var fdsD []*ast.FuncDecl
+		if dsG7 != nil {
+			fdsD = dsG7.entries
+		}
 		for _, fd := range fdsD {
 			var parsed types.Object
 			ast.Inspect(fd.Body, func(n ast.Node) bool {
@@ -1575,16 +1757,58 @@ func ruleG7(r *Run) {
 				if f == nil || !p.InRepo(f) {
 					return true
 				}
-				switch f.Name() {
-				case "run", "task", "sendResponse":
+				// the id parameter of a callee: the one named index, else its only int parameter
+				idParam := func(f *types.Func) int {
 					sig := f.Type().(*types.Signature)
-					for i := 0; i < sig.Params().Len() && i < len(call.Args); i++ {
+					only, cnt := -1, 0
+					for i := 0; i < sig.Params().Len(); i++ {
 						if sig.Params().At(i).Name() == "index" {
-							n++
-							if identObj(info, call.Args[i]) != parsed {
-								okAll = false
-							}
+							return i
 						}
+						if b, ok := sig.Params().At(i).Type().Underlying().(*types.Basic); ok && b.Kind() == types.Int {
+							only = i
+							cnt++
+						}
+					}
+					if cnt == 1 {
+						return only
+					}
+					return -1
+				}
+				switch {
+				case refName(f.Name()) == "run" || refName(f.Name()) == "task" || refName(f.Name()) == "sendResponse":
+					if i := idParam(f); i >= 0 && i < len(call.Args) {
+						n++
+						if identObj(info, call.Args[i]) != parsed {
+							okAll = false
+						}
+					}
+				case dsG7 != nil && dsG7.targets[f]:
+					// a forwarder (the dispatch tail split off): it gets the parsed id and passes its own parameter on
+					i := idParam(f)
+					if i < 0 || i >= len(call.Args) || identObj(info, call.Args[i]) != parsed {
+						okAll = false
+						break
+					}
+					if d := p.Decl(f); d != nil {
+						params := paramsOf(info, d.Type)
+						ast.Inspect(d.Body, func(k ast.Node) bool {
+							c2, ok := k.(*ast.CallExpr)
+							if !ok {
+								return true
+							}
+							f2 := Callee(info, c2)
+							if f2 == nil || !dsG7.targets[f2] {
+								return true
+							}
+							if j := idParam(f2); j >= 0 && j < len(c2.Args) {
+								n++
+								if i >= len(params) || identObj(info, c2.Args[j]) != types.Object(params[i]) {
+									okAll = false
+								}
+							}
+							return true
+						})
 					}
 				}
 				return true
